@@ -28,7 +28,8 @@ def main():
     os.makedirs(os.path.join(HERE, "build"), exist_ok=True)
     results = []
     sh("git checkout -q -- . && git clean -fdq -e target", cwd=wt)
-    ids = sorted(d for d in glob.glob(os.path.join(HERE, "seeded", "C*_*")) if os.path.exists(os.path.join(d, "patch.diff")) and filt in d)
+    import re as _re
+    ids = sorted(d for d in glob.glob(os.path.join(HERE, "seeded", "C*_*")) if os.path.exists(os.path.join(d, "patch.diff")) and (filt in d or (filt.startswith("re:") and _re.search(filt[3:], os.path.basename(d)))))
     props = sorted(set(os.path.basename(d).split("_")[0] for d in ids))
     if not filt:
         for p in props:
